@@ -40,16 +40,46 @@ def dags(n, perms=True):
         yield ((),) + combo
 
 
-def build(bases_spec, root):
+def build(bases_spec, root, warm=None):
+    """Create the classes one at a time; ``warm(classes)`` runs after every
+    new class, so that every query has been asked *before* later subclasses
+    exist (a memoised subclass walk would go stale)."""
     classes = []
     for i, bases in enumerate(bases_spec):
         try:
+            ns = {'idx': i}
+            if i % 2:
+                # legal components / processors may be falsy
+                ns['__bool__'] = lambda self: False
             cls = type(f'K{i}', tuple(classes[b] for b in bases) or (root,),
-                       {'idx': i})
+                       ns)
         except TypeError:
             return None
         classes.append(cls)
+        if warm is not None:
+            warm(classes)
     return classes
+
+
+def warm_components(classes):
+    w = desper.World()
+    w.create_entity(*[c() for c in classes], entity_id=1)
+    for q in classes:
+        w.get(q)
+        w.has_component(1, q)
+        w.get_component(1, q)
+    for q in classes:
+        w.remove_component(1, q)
+
+
+def warm_processors(classes):
+    w = desper.World()
+    for c in classes:
+        w.add_processor(c())
+    for q in classes:
+        w.get_processor(q)
+    for q in classes:
+        w.remove_processor(q)
 
 
 def _exact_or_match(got, objs, klass, default=None):
@@ -73,7 +103,7 @@ def run_dag(case):
         def __repr__(self):
             return f'<{type(self).__name__}>'
 
-    classes = build(spec, Root)
+    classes = build(spec, Root, warm_components)
     if classes is None:
         return {'calls': 0, 'hits': {'mro_rejected': 1}, 'key': repr(spec)}
     multi = any(len(b) > 1 for b in spec)
@@ -161,7 +191,7 @@ def run_dag(case):
         def process(self, dt):
             pass
 
-    pclasses = build(spec, PRoot)
+    pclasses = build(spec, PRoot, warm_processors)
     for mask in range(1 << n):
         mine = [pclasses[i] for i in range(n) if mask >> i & 1]
         for q in pclasses:
@@ -215,6 +245,8 @@ def run(tier, rep):
     rep.assumptions += [
         'which object is returned among several non-exact matches is free',
         'fresh root classes per hierarchy keep type.__subclasses__() clean',
+        'every query is also issued after each class definition, before the '
+        'later subclasses exist (stale memoisation of the subclass walk)',
     ]
     rep.require_hits(multiple_inheritance=1, diamond=1, mro_rejected=1)
     kernel.enumerate_cases(run_dag, cases(tier), rep, 'class-dags', chunk=8,
